@@ -27,7 +27,7 @@ def prepare():
 
 
 def generate(seed, h, tier):
-    return pcheck.generate(seed, ID, h, tier, vertex_p=0.35, fault_p=0.1, threshold_p=0.8,
+    return pcheck.generate(seed, ID, h, tier, vertex_p=0.35, fault_p=0.25, threshold_p=0.8,
                            profile_bias={"shutoff": (0.5, ["continued", "long_delayed_shutoff", "continued_after_10_percent_fed",
                                                            "long_delayed_shutoff_after_10_percent_fed", "short_delayed_shutoff"])})
 
